@@ -312,7 +312,8 @@ def _location_body(front, status_i, loc_i, method_i, has_body, hv, container):
                     del hdrs[n]        # a framing header must describe the body that is actually sent
         if container == 1:
             hdrs = HTTPHeaderDict(hdrs)
-        body = b"abc" if has_body else None
+        import io
+        body = (io.BytesIO(b"abc") if has_body == 2 else b"abc") if has_body else None
         if front == 0:
             fe = CutManager()
             url = URL0
@@ -370,6 +371,10 @@ def _location_body(front, status_i, loc_i, method_i, has_body, hv, container):
                 return _fail("%d changed the method %s -> %s" % (status, method, m2))
             if kw2.get("body") != body:
                 return _fail("%d changed the body to %r" % (status, kw2.get("body")))
+            if has_body == 2 and kw2.get("body_pos") != 0:
+                # a file body was read to its end by the first hop: the follow-up must know where it started
+                return _fail("%d: the follow-up request for a file body is given body_pos=%r, the body started at 0 (it would be "
+                             "sent from there: empty or truncated)" % (status, kw2.get("body_pos")))
             for n in hdrs:
                 if n.lower() not in names2:
                     return _fail("%d dropped header %r" % (status, n))
@@ -381,7 +386,7 @@ def _location_body(front, status_i, loc_i, method_i, has_body, hv, container):
 
 
 def location_dims(part):
-    return [part["statuses"], part["locs"], part["methods"], [False, True], [(0, 0), (1, 1)] if part["tie"] else [(0, 0), (0, 1), (1, 0), (1, 1)]]
+    return [part["statuses"], part["locs"], part["methods"], [False, True, 2], [(0, 0), (1, 1)] if part["tie"] else [(0, 0), (0, 1), (1, 0), (1, 1)]]
 
 
 def _location_point(idx):
